@@ -2,7 +2,7 @@ CONSTANTS
   Cfgs <- C01Cfgs
   Apis = {"query", "send", "search", "gai", "ghbn", "ghba", "gni"}
   Nests = {"none", "cancel", "query", "search", "gai", "querycancel"}
-  Kinds = {"ok", "servfail", "nx", "tc", "garbage", "formerr"}
+  Kinds = {"ok", "servfail", "nx", "tc", "garbage", "formerr", "badcookie", "stale_ok"}
   Faults = {"sendto", "socket", "connect", "recvfrom"}
   Extras = {"cancel", "timeout", "setservers"}
   MaxReq = 2
